@@ -10,11 +10,11 @@ check through `BS.applyOp` and the query functions); helper lemmas are in `Lemma
 * `BS.Inv b` — the cached count `b.set` equals the number of one bits of the storage (`BS.card`), which is the number
   of members (`count_is_cardinality`).
 
-Everything that speaks about *membership* is proved outright.  Everything that speaks about `Count` after a range
-operation goes through the whole-word fast path, which calls the repository's SWAR routine `countSetBits`; that this
-routine is the population count (`BS.SwarPopcount`) is NOT proved here (the tactic that would do it is not allowed) —
-it is an explicit, named hypothesis of the `_partial` theorems below, checked by the kernel on all 256 byte patterns
-(`swar_bytes_partial`) and compared with the real `countSetBits` on every run (area `popcnt`). -/
+Everything is proved outright.  Whatever speaks about `Count` after a range operation goes through the whole-word fast
+path, which calls the repository's SWAR routine `countSetBits`; that this routine is the population count on every
+64-bit word is `countSetBits_eq_popcount` below (kernel-only proof by byte lanes, `Lemmas/BitSetSwar.lean`: the 256
+byte values are evaluated by the kernel, the lane algebra is linear arithmetic), and it is also compared with the real
+`countSetBits` on every run (area `popcnt`). -/
 namespace C08
 open BS
 
@@ -67,25 +67,23 @@ theorem clearRange_mem_spec (b : T) (s e x : Nat) :
 theorem flipRange_mem_spec (b : T) (s e x : Nat) :
     mem (flipRange b s e) x = (mem b x ^^ decide (min s e ≤ x ∧ x ≤ max s e)) := flipRange_mem b s e x
 
-/-- full statement: the range operations keep `Count` equal to the cardinality -/
-def range_count_Statement : Prop :=
-  ∀ (b : T) (s e : Nat), Inv b → Inv (setRange b s e) ∧ Inv (clearRange b s e) ∧ Inv (flipRange b s e)
+/-- the repository's SWAR routine `countSetBits` (x − ((x>>1) & 0x55…), 2-bit sums, nibble sums, mask 0x0f…, multiply by
+    0x01…, >> 56) **is the population count, on every 64-bit word** -/
+theorem countSetBits_eq_popcount (x : W) : countSetBits x = Int.ofNat (popcount x) := BS.countSetBits_eq_popcount x
 
-/-- the range operations keep `Count` equal to the cardinality, GIVEN that `countSetBits` is the population count
-    (used by the whole-word fast path only) -/
-theorem range_count_partial (hsw : SwarPopcount) : range_count_Statement :=
-  fun b s e h => ⟨(setRange_spec hsw b s e).2 h, (clearRange_spec hsw b s e).2 h, (flipRange_spec hsw b s e).2 h⟩
-
-/-- the hypothesis itself: the SWAR routine of the source equals the population count on every word -/
-def countSetBits_eq_popcount_Statement : Prop := SwarPopcount
+/-- **SetRange / ClearRange / FlipRange** keep `Count` equal to the cardinality (whole-word fast path included) -/
+theorem range_count (b : T) (s e : Nat) (h : Inv b) :
+    Inv (setRange b s e) ∧ Inv (clearRange b s e) ∧ Inv (flipRange b s e) :=
+  ⟨(setRange_spec b s e).2 h, (clearRange_spec b s e).2 h, (flipRange_spec b s e).2 h⟩
 
 set_option maxRecDepth 200000 in
-/-- kernel-checked part of it: every byte pattern, replicated into all eight byte lanes -/
-theorem swar_bytes_partial : ∀ n, n < 256 →
+/-- a direct kernel evaluation of the routine on every byte pattern replicated into all eight byte lanes (kept as an
+    independent cross-check of the transcription; the general theorem is `countSetBits_eq_popcount`) -/
+theorem swar_bytes : ∀ n, n < 256 →
     countSetBits (BitVec.ofNat 64 (n * 0x0101010101010101))
       = Int.ofNat (popcount (BitVec.ofNat 64 (n * 0x0101010101010101))) := by decide
 
-/-- independent of the hypothesis: the per-bit loops (first and last word of every range) keep the count exact — the
+/-- the per-bit loops (first and last word of every range) keep the count exact — the
     change of `set` is the change of the word's population count -/
 theorem bitLoop_count (w : W) (s : Int) (j n : Nat) (h : j + n ≤ 64) :
     (bitLoop bitSet w s j n).2 = s + popcount (bitLoop bitSet w s j n).1 - popcount w
@@ -102,19 +100,15 @@ theorem bitLoop_count (w : W) (s : Int) (j n : Nat) (h : j + n ≤ 64) :
 theorem run_refines (ops : List Op) (r : Reg) (x : Nat) : mem ((run ops).get r) x = (specRun ops).get r x :=
   run_mem ops r x
 
-/-- full statement: `Count` equals the cardinality after every history -/
-def count_card_Statement : Prop := ∀ (ops : List Op) (r : Reg), Inv ((run ops).get r)
+/-- **after any sequence of calls** `Count` equals the cardinality, for both bit sets of the history -/
+theorem count_card (ops : List Op) (r : Reg) : Inv ((run ops).get r) := (run_rel ops r).1
 
-/-- `Count` equals the cardinality after every history, GIVEN `SwarPopcount` -/
-theorem count_card_partial (hsw : SwarPopcount) : count_card_Statement :=
-  fun ops r => (run_rel hsw ops r).1
+/-- one step of any history keeps the invariant and the agreement with the specification -/
+theorem step_spec (p : Pair) (sp : SPair) (h : Rel p sp) (op : Op) :
+    Rel (applyOp p op) (specOp sp op) := step_refines p sp h op
 
-/-- one step of any history keeps the invariant and the agreement with the specification, GIVEN `SwarPopcount` -/
-theorem step_partial (hsw : SwarPopcount) (p : Pair) (sp : SPair) (h : Rel p sp) (op : Op) :
-    Rel (applyOp p op) (specOp sp op) := step_refines hsw p sp h op
-
-/-- `Count` after a history in which the whole-word fast path is not needed for the count — histories without range
-    operations — is the cardinality with no assumption at all -/
+/-- `Count` after a history without range operations is the cardinality — proved without going through
+    `countSetBits` at all (independent of `countSetBits_eq_popcount`) -/
 theorem count_card_norange (ops : List Op)
     (hno : ∀ op ∈ ops, match op with | .setRange .. | .clearRange .. | .flipRange .. => False | _ => True)
     (r : Reg) : Inv ((run ops).get r) := by
@@ -243,8 +237,8 @@ theorem equal_iff (a b : T) (ha : Inv a) (hb : Inv b) : equal a b = true ↔ ∀
 theorem equal_iff_raw (a b : T) : equal a b = true ↔ (a.set = b.set ∧ ∀ x, mem a x = mem b x) :=
   BS.equal_iff_raw a b
 
-/-! non-vacuity: the invariant holds for the zero value and a concrete history; the hypothesis `SwarPopcount` holds
-    at sample words; `equal` sees through different capacities -/
+/-! non-vacuity: the invariant holds for the zero value and a concrete history; `countSetBits` evaluated at sample
+    words; `equal` sees through different capacities -/
 example : BS.Inv ({} : T) := rfl
 example : countSetBits 0xdeadbeef12345678#64 = Int.ofNat (popcount 0xdeadbeef12345678#64) := by decide
 example : countSetBits (BitVec.allOnes 64) = 64 := by decide
